@@ -235,3 +235,39 @@ Example C18_text_counts_bytes :
 Proof. vm_compute. split; reflexivity. Qed.
 Example C18_close_default : ws_close 200 [byte_of_Z 79; byte_of_Z 75] = Ok close_frame.
 Proof. vm_compute. reflexivity. Qed.
+
+(* ---------- kernels REGENERATED from mpgameserver/http_server.py on every run (tools/py2v_bytes.py,
+   Gen/WsKernels.v): the translated source text of the three header functions is the hand-written model *)
+From Model Require StructPack.
+From Gen Require WsKernels.
+From Proofs Require WsKernelsP.
+
+(* WebSocketFrame.serializeHeader as written in the source = WsFrame.serialize_header, for every frame record
+   (any flag values, any payload_length: the struct.error cases included) *)
+Theorem C18_kernel_header : forall f,
+  WsKernels.gen_ws_serializeHeader (f_fin f) (f_rsv1 f) (f_rsv2 f) (f_rsv3 f) (opcode_val (f_opcode f))
+                                   (f_mask f) (f_plen f)
+  = serialize_header f.
+Proof. exact WsKernelsP.gen_ws_serializeHeader_spec. Qed.
+Print Assumptions C18_kernel_header.
+
+(* WebSocketFrame.serializeDataHeader as written in the source = WsFrame.serialize_data_header *)
+Theorem C18_kernel_data_header : forall f,
+  WsKernels.gen_ws_serializeDataHeader (f_mask f) (f_plen f) (f_key f) = serialize_data_header f.
+Proof. exact WsKernelsP.gen_ws_serializeDataHeader_spec. Qed.
+Print Assumptions C18_kernel_data_header.
+
+(* WebSocketFrame.parseHeader as written in the source: the flag fields of every frame parse_frame returns
+   are the kernel's, computed from the first two bytes *)
+Theorem C18_kernel_parse_header : forall b0 b1 rest f buf',
+  parse_frame (b0 :: b1 :: rest) = (Ok f, buf') ->
+  WsKernels.gen_ws_parseHeader (Z_of_byte b0) (Z_of_byte b1)
+  = (f_fin f, f_rsv1 f, f_rsv2 f, f_rsv3 f, opcode_val (f_opcode f), f_mask f, Z.land (Z_of_byte b1) 127).
+Proof. exact WsKernelsP.gen_ws_parseHeader_spec. Qed.
+Print Assumptions C18_kernel_parse_header.
+
+Example C18_kernel_header_example :
+  WsKernels.gen_ws_serializeHeader 1 0 0 0 2 1 70000 = Ok [byte_of_Z 130; byte_of_Z 255] /\
+  WsKernels.gen_ws_serializeDataHeader 0 126 [] = Ok [x00; byte_of_Z 126] /\
+  WsKernels.gen_ws_parseHeader 130 255 = (1, 0, 0, 0, 2, 1, 127).
+Proof. vm_compute. repeat split. Qed.
